@@ -56,6 +56,58 @@ def Inv (s : State) : Prop :=
   (∀ k c, s.calls k = some c → CallInv s k c) ∧ PendingInv s ∧ ShutdownInv s ∧
   (∀ k, k ∈ s.ids ↔ (s.calls k).isSome)
 
+/-! Further invariants (each stands alone; all are preserved by every step). -/
+
+def taskId : Task → Nat
+  | .fin k _ => k
+  | .done k => k
+
+def isAsync (s : State) (k : Nat) : Bool :=
+  match s.calls k with
+  | some c => c.form.async
+  | none => false
+
+/-- K4 (C05): with pipelining the shared Done channel receives the asynchronous calls in exactly
+    the order in which their completion was determined: what has been determined is what has
+    arrived followed by what is still queued, in queue order. -/
+def FifoInv (s : State) : Prop :=
+  s.cfg.pipe = true → s.handed = s.arrivals ++ (s.finQ.map taskId).filter (isAsync s)
+
+/-- a frame travelling with a completion task was returned by ReadMessage, decoded, and its
+    sequence number is the one under which the task's call was registered -/
+def frameOk (s : State) (k : Nat) (f : Frame) : Prop :=
+  f ∈ s.fed ∧ f.junk = false ∧ ∃ c, s.calls k = some c ∧ c.seq = some f.seq
+
+def TaskInv (s : State) : Prop :=
+  (∀ k f, Task.fin k f ∈ s.finQ ∨ Task.fin k f ∈ s.finBag ∨ s.reader = .finishing k f → frameOk s k f) ∧
+  (∀ f, f ∈ s.decodeQ → f ∈ s.fed) ∧ (∀ f, s.reader = .decoding f → f ∈ s.fed)
+
+/-- C01/C06 (client half): whatever was decoded into a call's Reply, and every server error
+    text stored in its Error, comes from a received frame whose header carried that call's own
+    sequence number. -/
+def ProvInv (s : State) : Prop :=
+  ∀ k c, s.calls k = some c →
+    (∀ src kd, c.replyFrom = some (src, kd) →
+      ∃ q, c.seq = some q ∧ ({ seq := q, src := src, kind := kd, junk := false } : Frame) ∈ s.fed) ∧
+    (∀ src n, Err.text src n ∈ c.errHist →
+      ∃ q, c.seq = some q ∧ ({ seq := q, src := src, kind := .err n, junk := false } : Frame) ∈ s.fed)
+
+/-- the send queue (pipelining) holds exactly the calls whose send has not returned, and only
+    its head can be past the first step -/
+def SendQInv (s : State) : Prop :=
+  (s.cfg.pipe = true →
+    (∀ k c, s.calls k = some c → (c.phase ≠ .sent ↔ k ∈ s.sendQ)) ∧ s.sendQ.Nodup ∧
+    (∀ k c, k ∈ s.sendQ → s.calls k = some c → c.phase ≠ .new → s.sendQ.head? = some k)) ∧
+  (∀ k c, s.calls k = some c → c.phase ≠ .new → c.phase ≠ .sent → c.seq.isSome = true)
+
+/-- which queues exist in which mode -/
+def ModeInv (s : State) : Prop :=
+  (s.cfg.directIO = true → s.decodeQ = []) ∧
+  (s.cfg.pipe = true → s.finBag = []) ∧
+  (s.cfg.pipe = false → s.finQ = [] ∧ s.sendQ = []) ∧
+  (s.cfg.directIO = false → ∀ f k, s.reader ≠ .decoding f ∧ s.reader ≠ .finishing k f) ∧
+  (s.cfg.pipe = true → ∀ f k, s.reader ≠ .finishing k f)
+
 /-! Executable version (over the started calls), used by the driver as a run-time cross-check. -/
 
 def nodupNat : List Nat → Bool
@@ -67,7 +119,46 @@ def checkCall (s : State) (k : Nat) : Bool :=
   | none => false
   | some c => c.k == k && c.signals + doneTok s k + owners s c == 1 && c.errHist.length + c.replyWrites + owners s c ≤ 1
 
+def checkFifo (s : State) : Bool :=
+  !s.cfg.pipe || s.handed == s.arrivals ++ (s.finQ.map taskId).filter (isAsync s)
+
+def frameOkB (s : State) (k : Nat) (f : Frame) : Bool :=
+  s.fed.contains f && !f.junk && (match s.calls k with | some c => c.seq == some f.seq | none => false)
+
+def checkTask (s : State) : Bool :=
+  s.finQ.all (fun t => match t with | .fin k f => frameOkB s k f | _ => true) &&
+  s.finBag.all (fun t => match t with | .fin k f => frameOkB s k f | _ => true) &&
+  (match s.reader with | .finishing k f => frameOkB s k f | .decoding f => s.fed.contains f | _ => true) &&
+  s.decodeQ.all (fun f => s.fed.contains f)
+
+def checkProv (s : State) : Bool :=
+  s.ids.all fun k => match s.calls k with
+    | none => false
+    | some c =>
+      (match c.replyFrom, c.seq with
+        | some (src, kd), some q => s.fed.contains { seq := q, src := src, kind := kd, junk := false }
+        | some _, none => false
+        | none, _ => true) &&
+      c.errHist.all (fun e => match e, c.seq with
+        | .text src n, some q => s.fed.contains { seq := q, src := src, kind := .err n, junk := false }
+        | .text _ _, none => false
+        | _, _ => true)
+
+def checkSendQ (s : State) : Bool :=
+  (!s.cfg.pipe ||
+    (s.ids.all (fun k => match s.calls k with | some c => (c.phase != .sent) == s.sendQ.contains k | none => false) &&
+     nodupNat s.sendQ &&
+     s.sendQ.all (fun k => match s.calls k with | some c => c.phase == .new || s.sendQ.head? == some k | none => false))) &&
+  s.ids.all (fun k => match s.calls k with | some c => c.phase == .new || c.phase == .sent || c.seq.isSome | none => false)
+
+def checkMode (s : State) : Bool :=
+  (!s.cfg.directIO || s.decodeQ.isEmpty) && (!s.cfg.pipe || s.finBag.isEmpty) &&
+  (s.cfg.pipe || (s.finQ.isEmpty && s.sendQ.isEmpty)) &&
+  (s.cfg.directIO || (match s.reader with | .decoding _ => false | .finishing _ _ => false | _ => true)) &&
+  (!s.cfg.pipe || (match s.reader with | .finishing _ _ => false | _ => true))
+
 def checkInv (s : State) : Bool :=
+  checkFifo s && checkTask s && checkProv s && checkSendQ s && checkMode s &&
   s.ids.all (checkCall s) && nodupNat (s.pending.map (·.1)) &&
   s.pending.all (fun (q, k) => q < s.seq && (match s.calls k with | some c => c.seq == some q | none => false)) &&
   (!s.shutdown || s.pending.isEmpty) &&
